@@ -437,9 +437,38 @@ Definition expected_col (nest : bool) (before news : list Z) : list Z :=
 Fixpoint seq_from (n : Z) (l : list Z) : bool :=
   match l with [] => true | x :: l => (x =? n) && seq_from (n + 1) l end.
 
+(* the keys of the files accepted in a call; the full path of a key *)
+Definition accepted_keys (tbl : list (string * Z)) (c : call) : list (list Z * Z) :=
+  flat_map (fun x => match snd x with Some k => [k] | None => [] end) (accepted_files tbl c).
+Definition kpath (k : list Z * Z) : list Z := fst k ++ [snd k].
+Fixpoint is_prefix (p l : list Z) : bool :=
+  match p, l with
+  | [], _ => true
+  | x :: p, y :: l => (x =? y) && is_prefix p l
+  | _ :: _, [] => false
+  end.
+Definition proper_prefix (p l : list Z) : bool := is_prefix p l && negb (list_eqb Z.eqb p l).
+
+(* what must be under key k after the call.  Besides the keys of this
+   call's files, the map may hold keys from earlier populations (of other
+   directory trees): a name that is now a directory on the way to an
+   accepted file must have lost its handles (every layer), whatever lay
+   below a name that is now a file is gone, and for a name that is now some
+   other directory the property leaves open whether it became a sub-map *)
+Definition col_ok (tbl : list (string * Z)) (prev : otree) (c : call) (k : list Z * Z) : bool :=
+  let now := ocol (k_tree c) k in
+  let exp := expected_col (eff_nest c) (ocol prev k) (news_of tbl c k) in
+  let afk := map kpath (accepted_keys tbl c) in
+  if existsb (fun f => proper_prefix (kpath k) f) afk || existsb (fun f => is_prefix f (fst k)) afk
+  then is_empty now
+  else if existsb (list_eqb Z.eqb (kpath k)) (allowed_maps tbl c)
+       then is_empty now || list_eqb Z.eqb now exp
+       else list_eqb Z.eqb now exp.
+
 Definition call_holds (tbl : list (string * Z)) (prev : otree) (nh : Z) (c : call) : bool :=
   let files := accepted_files tbl c in
-  let keys := flat_map (fun x => match snd x with Some k => [k] | None => [] end) files in
+  let keys := accepted_keys tbl c in
+  let afk := map kpath keys in
   (* a rule path that exists and is not a directory: ValueError; missing: skipped *)
   exc_eqb (k_exc c) (if first_notdir (k_truth c) then XValueError else XNone) &&
   (* exactly one handle per accepted file, built from that file's path and
@@ -448,15 +477,17 @@ Definition call_holds (tbl : list (string * Z)) (prev : otree) (nh : Z) (c : cal
   forallb (fun x => match snd x with Some _ => true | None => false end) files &&
   seq_from nh (map fst (k_log c)) &&
   (* under every key: the handles built for it in this call on top of (nest)
-     or instead of the top of (no nest) what was there, nothing else changed *)
-  forallb (fun k => list_eqb Z.eqb (ocol (k_tree c) k)
-                                   (expected_col (eff_nest c) (ocol prev k) (news_of tbl c k)))
-          (keys ++ okeys prev ++ okeys (k_tree c)) &&
-  (* sub-maps: the old ones stay, a new one corresponds to a directory under
-     a rule's directory or leads to one; back-links are in place *)
-  forallb (fun p => is_omap (k_tree c) p) (omaps prev) &&
+     or instead of the top of (no nest) what was there; nothing else changed
+     but for the names that changed between file and directory *)
+  forallb (col_ok tbl prev c) (keys ++ okeys prev ++ okeys (k_tree c)) &&
+  (* sub-maps: the old ones stay unless their name is now a file, a new one
+     corresponds to a directory under a rule's directory or leads to one, no
+     sub-map is left at or below the key of an accepted file; back-links are
+     in place *)
+  forallb (fun p => existsb (fun f => is_prefix f p) afk || is_omap (k_tree c) p) (omaps prev) &&
   forallb (fun p => is_omap prev p || existsb (list_eqb Z.eqb p) (allowed_maps tbl c))
           (omaps (k_tree c)) &&
+  forallb (fun p => negb (existsb (fun f => is_prefix f p) afk)) (omaps (k_tree c)) &&
   olinks (k_tree c).
 
 (* the part of [call_holds] that Props/C16.v proves for all cases *)
@@ -580,11 +611,18 @@ Definition call_wf (tbl : list (string * Z)) (c : call) : bool :=
   forallb (fun r => nonempty (r_path r) && forallb proper_name (r_path r)) (k_rules c) &&
   forall3 (truth_ok tbl c) (k_rules c) (k_truth c) (k_seqs c).
 
+(* within one population a name is a file or a directory, never both (C11:
+   a name is a handle or a sub-map; no implementation could satisfy C16
+   otherwise).  Across populations - other directory trees through root=,
+   other populators - a name may change sides: the latest population wins *)
+Definition call_noclash (tbl : list (string * Z)) (c : call) : bool :=
+  forallb (fun k => negb (existsb (list_eqb Z.eqb k) (dir_keys tbl c))) (file_keys tbl c).
 Definition wf_b (c : C16_case) : bool :=
   nodup_str (map fst (c_names c)) && nodup_z (map snd (c_names c)) &&
   forallb (call_wf (c_names c)) (c_calls c) &&
-  (* a name is a file or a directory, never both (C11: a name is a handle or
-     a sub-map; no implementation could satisfy C16 otherwise) *)
+  forallb (call_noclash (c_names c)) (c_calls c).
+(* no name changes sides in the whole sequence of populations *)
+Definition noclash_b (c : C16_case) : bool :=
   let fk := flat_map (file_keys (c_names c)) (c_calls c) in
   let dk := flat_map (dir_keys (c_names c)) (c_calls c) in
   forallb (fun k => negb (existsb (list_eqb Z.eqb k) dk)) fk.
